@@ -76,6 +76,15 @@ impl TopicActor {
         topic_internal_id: u32,
     ) -> mpsc::Sender<TopicRequest> {
         let (sender, mut receiver) = mpsc::channel(16);
+        #[cfg(deltio_verif)]
+        let (sender, mut receiver) = {
+            drop::<(mpsc::Sender<TopicRequest>, mpsc::Receiver<TopicRequest>)>((sender, receiver));
+            let capacity = crate::verif::capacity(16);
+            crate::verif::emit("t.start", |_| {
+                serde_json::json!({"ti": topic_internal_id, "cap": capacity})
+            });
+            mpsc::channel(capacity)
+        };
         let mut actor = Self {
             topic_internal_id,
             delegate,
@@ -88,8 +97,12 @@ impl TopicActor {
 
         tokio::spawn(async move {
             while let Some(request) = receiver.recv().await {
+                #[cfg(deltio_verif)]
+                crate::verif::point("t.turn", actor.topic_internal_id as u64).await;
                 actor.receive(request).await;
             }
+            #[cfg(deltio_verif)]
+            crate::verif::emit("t.exit", |_| serde_json::json!({"ti": actor.topic_internal_id}));
         });
 
         sender
@@ -102,6 +115,10 @@ impl TopicActor {
                 responder,
             } => {
                 let result = self.publish_messages(messages).await;
+                #[cfg(deltio_verif)]
+                crate::verif::emit("t.pubdone", |_| {
+                    serde_json::json!({"ti": self.topic_internal_id, "ok": result.is_ok()})
+                });
                 let _ = responder.send(result);
             }
 
@@ -151,6 +168,16 @@ impl TopicActor {
 
         // Create the page.
         let next_page = paging.next_page_from_slice_result(&subscriptions);
+        #[cfg(deltio_verif)]
+        crate::verif::emit("t.list", |_| {
+            serde_json::json!({
+                "ti": self.topic_internal_id,
+                "skip": paging.to_skip(),
+                "size": paging.size(),
+                "out": subscriptions.iter().map(|s| s.internal_id).collect::<Vec<_>>(),
+                "next": next_page.offset(),
+            })
+        });
         let page = SubscriptionsPage::new(subscriptions, next_page.offset());
 
         // Return the page.
@@ -186,6 +213,25 @@ impl TopicActor {
         // Add them to the topic.
         self.messages.extend(messages.iter().map(Arc::clone));
 
+        #[cfg(deltio_verif)]
+        crate::verif::emit("t.accept", |_| {
+            let mut fan = self
+                .subscriptions
+                .values()
+                .map(|s| s.internal_id)
+                .collect::<Vec<_>>();
+            fan.sort();
+            serde_json::json!({
+                "ti": self.topic_internal_id,
+                "ids": message_ids
+                    .iter()
+                    .map(|m| [m.value >> 32, m.value & 0xffff_ffff])
+                    .collect::<Vec<_>>(),
+                "fan": fan,
+                "deleted": self.deleted,
+            })
+        });
+
         // Post them to all subscriptions.
         let mut set = tokio::task::JoinSet::new();
         for subscription in self.subscriptions.values() {
@@ -220,10 +266,28 @@ impl TopicActor {
         &mut self,
         subscription: Arc<Subscription>,
     ) -> Result<(), AttachSubscriptionError> {
+        #[cfg(deltio_verif)]
+        let verif_sub = (subscription.name.to_string(), subscription.internal_id);
         // Insert the subscription.
         if let Entry::Vacant(entry) = self.subscriptions.entry(subscription.name.clone()) {
             entry.insert(subscription);
         }
+        #[cfg(deltio_verif)]
+        crate::verif::emit("t.attach", |_| {
+            let mut attached = self
+                .subscriptions
+                .values()
+                .map(|s| s.internal_id)
+                .collect::<Vec<_>>();
+            attached.sort();
+            serde_json::json!({
+                "ti": self.topic_internal_id,
+                "name": verif_sub.0,
+                "si": verif_sub.1,
+                "attached": attached,
+                "deleted": self.deleted,
+            })
+        });
 
         Ok(())
     }
@@ -234,10 +298,28 @@ impl TopicActor {
     ) -> Result<(), RemoveSubscriptionError> {
         // Remove the subscription. This is called from the `Subscription` itself.
         self.subscriptions.remove(&name);
+        #[cfg(deltio_verif)]
+        crate::verif::emit("t.remove", |_| {
+            let mut attached = self
+                .subscriptions
+                .values()
+                .map(|s| s.internal_id)
+                .collect::<Vec<_>>();
+            attached.sort();
+            serde_json::json!({
+                "ti": self.topic_internal_id,
+                "name": name.to_string(),
+                "attached": attached,
+            })
+        });
         Ok(())
     }
 
     fn delete(&mut self) -> Result<(), DeleteError> {
+        #[cfg(deltio_verif)]
+        crate::verif::emit("t.delete", |_| {
+            serde_json::json!({"ti": self.topic_internal_id, "first": !self.deleted})
+        });
         if self.deleted {
             return Ok(());
         }
